@@ -486,9 +486,12 @@ class BigQueryParser(parser.Parser):
                 for p in _split_qualified_name(".".join(p.name for p in table.parts), 3)
             )
 
+            # A part that was written on its own keeps its own position, the others come out of
+            # the quoted name that was split
+            written = {p.name: p for p in table.parts if "." not in p.name}
             for part in (catalog, db, this_id):
                 if part:
-                    part.update_positions(table.this)
+                    part.update_positions(written.get(part.name, table.this))
 
             this: exp.Expr | None = this_id
             if rest and this:
